@@ -190,5 +190,5 @@ def run(ctx):
         "monitors": "per-object dispose counters of harness/C01 and harness/C02 on the real code: double dispose, dispose of a never-retired object, not exactly once after destruction",
     })
     return ctx.finish(vcheck.STD_TRUSTED + ["hook layer (instrumented atomics, baton scheduler, event log)", "ocaml/conc_main.ml", "checks/C01.py and checks/C02.py generators, log comparison and monitors"],
-                      ["sequential consistency only", "DHP interleaving statements are _statement definitions; the DHP theorems cover the sequential retired-array core",
+                      ["sequential consistency only", "DHP: at-most-once is proved for every schedule modulo flbad = false (C21); destroy-disposes-all and scan-frees-unguarded are proved for the sequential retired-array core, their interleaving forms are _statement definitions",
                        "HP: overflow events stand for the out-of-bounds write when R <= H*P or more than P threads attach (never generated)"])
